@@ -14,7 +14,11 @@ re-extracted into `Whv/Gen/C11.lean` on every run and compared with the model he
                           hex strings denote exactly the returned values — nothing is wrapped, truncated or defaulted
 * `c11_fit_fields_decoded` any field list that denotes an in-range event (any digit string, either hex case) is decoded to it
 * `c11_model_meets_spec`  the Bool Spec the driver evaluates on the implementation's answers holds of the model
-* narrowing lemmas, numeral grammar, publication, hex / attestation / contract-id round trips, contract layout
+* `c11_render_is_fit`     every in-range event, as the node renders it, lies in the Spec's "must be accepted" domain
+* narrowing lemmas (`toUintN_ok_iff`, `toUintN_rejects`), numeral grammar, `c11_publication` (timestamp, chain id),
+  `c11_hex_roundtrip` / `c11_hex_decode_encode`, `c11_attest_roundtrip(_padded)` / `c11_attest_accepted`,
+  `c11_contract_id_roundtrip` (any base58 codec) and `c11_base58_roundtrip` / `c11_contract_id_roundtrip_btcutil`
+  (the modelled btcutil codec, proved), `c11_event_shape` / `c11_attest_layout` (contract sources, by `decide`)
 -/
 namespace Whv.C11
 open Whv Whv.AlphUtil
@@ -607,7 +611,19 @@ theorem c11_contract_address_roundtrip (enc : Bytes → GoStr) (dec : GoStr → 
     unfold hexToByte32 at this
     simp [toContractAddressWith, this]
 
-/-- The concrete btcutil model on a sample: the all-zero id and a mixed one. -/
+/-- The base58 hypothesis holds of the model of btcutil's codec (which is compared with the real library on every
+run): `Decode(Encode(b)) = b` for every byte string, leading zero bytes included. -/
+theorem c11_base58_roundtrip (b : Bytes) : b58Decode (b58Encode b) = .ok b := b58Decode_b58Encode b
+
+/-- Hence, unconditionally for the modelled code: `ToContractId(ToContractAddress(hex id)) = id` for every 32-byte id,
+and a contract address maps to its id and back to itself. -/
+theorem c11_contract_id_roundtrip_btcutil (id : Bytes) (h : id.length = 32) :
+    (∃ a, toContractAddress (toHex32 id) = .ok a ∧ toContractId a = .ok id) ∧
+    toContractId (b58Encode (3 :: id)) = .ok id ∧ toContractAddress (toHex32 id) = .ok (b58Encode (3 :: id)) :=
+  ⟨c11_contract_id_roundtrip b58Encode b58Decode b58Decode_b58Encode id h,
+   c11_contract_address_roundtrip b58Encode b58Decode b58Decode_b58Encode id h⟩
+
+/-- The concrete btcutil model on a sample with a leading zero byte. -/
 example : b58Decode (b58Encode [3, 0, 255, 7]) = .ok [3, 0, 255, 7] := by decide
 
 /-! ## contract layout, re-extracted from the sources on every run -/
@@ -654,5 +670,43 @@ example : (toWormholeMessage sampleEvent.render []).toOption.map (·.cl) = some 
 example : fitEvent sampleEvent.render [] ≠ none := by decide
 example : (ralphAttestPayload (List.replicate 32 7) 255 18 (List.replicate 28 0 ++ [65, 76, 80, 72]) (List.replicate 24 0 ++ [65, 108, 101, 112, 104, 105, 117, 109])).isSome = true := by decide
 example : hexToByte32 (toHex32 (List.replicate 32 0xab)) = .ok (List.replicate 32 0xab) := c11_hex_roundtrip _ (by decide)
+
+
+/-! hypotheses of the theorems above are satisfiable by concrete, non-trivial instances -/
+
+-- toUintN_rejects: "-1" and "256" really parse (so the rejection is not vacuous)
+example : toU256 (.ofU256 [45, 49]) = .ok (-1) := by decide
+example : toUint8 (.ofU256 [45, 49]) = .error .uint8 := toUint8_rejects _ (-1) (by decide) (by omega)
+example : toUint16 (.ofU256 [54, 53, 53, 51, 54]) = .error .uint16 := toUint16_rejects _ 65536 (by decide) (by omega)
+example : toUint64 (.ofU256 [45, 53]) = .error .uint64 := toUint64_rejects _ (-5) (by decide) (by omega)
+-- non_numeric_rejected: 'x' inside "0x10"
+example : (120 : UInt8) ∈ ([48, 120, 49, 48] : GoStr).drop 1 ∧ isDigit 120 = false := by decide
+-- c11_accepted_exact / c11_accepted_denoted: something is accepted
+example : (toWormholeMessage sampleEvent.render [0xab]).toOption.isSome = true := by decide
+-- c11_fit_fields_decoded: upper-case hex and leading zeros are outside the strict domain, lower-case canonical is inside
+example : (fitEvent sampleEvent.render []).isSome = true := by decide
+example : denotesBytes (.ofByteVec [65, 66]) = none ∧ denotesBytesLenient (.ofByteVec [65, 66]) = some [0xab] := by decide   -- "AB"
+example : denotesNat (.ofU256 [48, 55]) = none ∧ denotesNatLenient (.ofU256 [48, 55]) = some 7 := by decide                 -- "07"
+-- wrong_count_rejected / wrong_tag_rejected
+example : toWormholeMessage (sampleEvent.render.take 5) [] = .error .fieldCount := wrong_count_rejected _ _ (by decide)
+example : ∃ e, toWormholeMessage (sampleEvent.render.set 5 { u256 := some ⟨tagI256, [49]⟩ }) [] = .error e :=
+  wrong_tag_rejected _ _ 5 _ rfl (Or.inr ⟨by decide, by intro t h; cases h; decide⟩)
+-- c11_unfit_rejected
+example : ∃ err, toWormholeMessage { sampleEvent with cl := 256 }.render [] = .error err := c11_unfit_rejected _ _ (by decide)
+-- c11_hex_decode_encode: an upper-case string is accepted and re-encodes to its lower-case form
+example : (hexToByte32 (List.replicate 64 65)).toOption.isSome = true := by decide
+-- c11_attest_roundtrip_padded: "ALPH" left-padded, "Alephium" right-padded
+example : parseAttestToken (be 1 2 ++ List.replicate 32 7 ++ be 2 255 ++ be 1 18 ++ (List.replicate 28 0 ++ [65, 76, 80, 72]) ++
+      ([65, 108, 101, 112, 104, 105, 117, 109] ++ List.replicate 24 0)) =
+    .ok { tokenId := List.replicate 32 7, decimals := 18, symbol := [65, 76, 80, 72], name := [65, 108, 101, 112, 104, 105, 117, 109] } := by
+  have h := c11_attest_roundtrip_padded (List.replicate 32 7) [65, 76, 80, 72] [65, 108, 101, 112, 104, 105, 117, 109]
+    (be 1 2 ++ List.replicate 32 7 ++ be 2 255 ++ be 1 18 ++ (List.replicate 28 0 ++ [65, 76, 80, 72] ++ List.replicate 0 0) ++
+      (List.replicate 0 0 ++ [65, 108, 101, 112, 104, 105, 117, 109] ++ List.replicate 24 0)) 18 28 0 0 24
+    (by decide) (by decide) (by decide) (by decide) (by decide)
+  simpa using h
+-- c11_attest_accepted
+example : (parseAttestToken (List.replicate 33 1 ++ [0, 255] ++ List.replicate 65 0)).toOption.isSome = true := by decide
+-- c11_contract_id_roundtrip_btcutil: a 32-byte id
+example : (List.replicate 32 (0 : UInt8)).length = 32 := by decide
 
 end Whv.C11
